@@ -21,8 +21,9 @@ ID = "C10"
 
 META = {
     "rule": "states = canonical interpreter states (content of every qlasskit.* module namespace incl. function code hashes and default "
-            "arguments + fingerprints of all live objects) reached by sequences of public API operations from a menu (compile of 9 sources incl. two "
-            "bodies under one name, names that are globals of the library, a function called oracle; bind; defs= composition; oraclize; Grover "
+            "arguments + fingerprints of all live objects) reached by sequences of public API operations from a menu (compile of 13 sources incl. two "
+            "bodies under one name, names that are globals of the library, a function called oracle, one called swap, bodies with if-statements "
+            "that make the front end generate names; bind; defs= composition; oraclize; Grover "
             "with and without element; DeutschJozsa; BernsteinVazirani; Simon; export qasm/qiskit/cirq/sympy; decompile; circuit optimizer; "
             "truth_table; compile of a callable). os.fork() snapshots the interpreter so that sibling operations start from exactly the same state; "
             "states are deduplicated by hash. On EVERY transition: (no damage) the fingerprint of every live object is unchanged; (no dependence) "
@@ -31,7 +32,8 @@ META = {
             "non-initial state; distinct = distinct canonical states.",
     "bound": {"quick": "all operation sequences of length <= 2; length <= 3 below compile of a library-global name / a function called oracle / a callee "
                        "(deduplicated by state); qiskit/cirq observers at length <= 2 below two first operations",
-              "thorough": "all operation sequences of length <= 4 (light menu) and <= 3 with the qiskit/cirq observers"},
+              "thorough": "all operation sequences of length <= 3; length <= 4 below compile of a library-global name / a function called oracle / a "
+                          "callee / a body with an if-statement; qiskit/cirq observers at length <= 2 below every first operation and <= 3 below three"},
     "assumptions": ["two interpreter states that agree on the canonical form have the same futures (sympy caches and object addresses are not "
                     "branched on by library code)",
                     "the reference fingerprints are validated against a genuinely fresh interpreter (python -c, same hash seed) in the conformance step"],
@@ -366,18 +368,19 @@ def shards(tier):
     out = []
     for op1, need1, kind1 in ops:
         if not need1 and (tier == "thorough" or op1 in ("compile:A", "compile:Q", "compile:S")):
-            out.append({"first": op1, "second": None, "count_first": False, "depth": 2 if tier == "quick" else 3, "heavy": True})
+            deep = tier == "thorough" and op1 in ("compile:A", "compile:Q", "compile:S")
+            out.append({"first": op1, "second": None, "count_first": False, "depth": 3 if deep else 2, "heavy": True})
     for op1, need1, kind1 in ops:
         if need1:
             continue
         slots1 = {op1.split(":")[1]}
         seconds = [op for op, need, kind in ops if all(n in slots1 for n in need)]
         # quick: every history of length <= 2, and length 3 below the operations that touch names, oracles and callees;
-        # thorough: every history of length <= 4
+        # thorough: one level deeper (a full depth-4 search is ~1M forked transitions at 80 ms each)
         if tier == "quick":
             depth = 3 if op1 in ("compile:K2", "compile:O", "compile:V", "compile:I") else 2
         else:
-            depth = 4
+            depth = 4 if op1 in ("compile:K2", "compile:O", "compile:V", "compile:I") else 3
         for i, op2 in enumerate(seconds):
             out.append({"first": op1, "second": op2, "count_first": i == 0, "depth": depth, "heavy": False})
     return out
